@@ -16,13 +16,14 @@ EXTRA = {"C04-r1": ["C05"], "C04-r2": ["C05"], "C06-r1": ["C05"], "C06-r2": ["C0
          "C14-u1": ["C02", "C15"], "C14-u2": ["C02", "C15"], "C15-u1": ["C14", "C11"], "C15-u2": ["C14", "C04"], "C19-u1": ["C07"], "C19-u2": ["C07"],
          "C06-v1": ["C08", "C03"], "C06-v2": ["C08", "C03"], "C07-v1": ["C19", "C13"], "C07-v2": ["C19", "C13"], "C08-v1": ["C06", "C20"], "C08-v2": ["C06", "C20"],
          "C09-v1": ["C07", "C08"], "C09-v2": ["C07", "C08"], "C13-v1": ["C06", "C08"], "C13-v2": ["C06", "C08"], "C17-v1": ["C07", "C09"], "C17-v2": ["C07", "C09"],
+         "C02-x1": [], "C12-x1": ["C02"], "C16-x1": ["C05"], "C19-x1": ["C07"],
          "C08-w1": ["C06"], "C08-w2": ["C06"], "C09-w1": ["C07"], "C09-w2": ["C07"], "C10-w1": ["C06"], "C10-w2": ["C06"],
          "C09-1": ["C07"], "C17-1": ["C15", "C04"], "C02-2": ["C14"], "C14-1": ["C02"], "C06-1": ["C05"], "C05-2": ["C06"], "C19-1": ["C07"], "C19-2": ["C07"], "C10-1": ["C15"],
          "C08-1": ["C20"], "C08-2": ["C20"], "C20-1": ["C08"], "C20-2": ["C08"], "C11-1": ["C15"], "C15-1": ["C10"], "C04-2": ["C10"], "C06-2": ["C10"], "C03-2": ["C07"], "C13-1": ["C07"], "C12-1": ["C01"], "C12-2": ["C01"]}
 out = {}
 only = sys.argv[1:]
 for d in sorted(os.listdir(ST)):
-    if not re.match(r"C\d\d-[rstuvw]?\d", d) or (only and d not in only):
+    if not re.match(r"C\d\d-[rstuvwx]?\d", d) or (only and d not in only):
         continue
     sd = os.path.join(ST, d)
     patch = os.path.join(sd, "patch.rebased.diff") if os.path.exists(os.path.join(sd, "patch.rebased.diff")) else os.path.join(sd, "patch.diff")
